@@ -481,7 +481,10 @@ def library_api(r, transports):
     view = main.enum("View", ["VIEW_UNSPECIFIED", "BASIC", "FULL"])
     opts = main.message("ListOptions").field("deep", 1, "bool").field("hint", 2, "string")
     svc_name = r.choice(["Library", "Catalog", "StorageAdmin"])
-    svc = main.service(svc_name, host="library.example.com", scopes="https://www.googleapis.com/auth/cloud-platform")
+    # most services declare (google.api.api_version): the x-goog-api-version header is then one of the call's metadata entries and
+    # must accompany every follow-up fetch like the rest
+    api_version = r.choice(["v1_20240408", "2025-01-01", "v2beta", None])
+    svc = main.service(svc_name, host="library.example.com", scopes="https://www.googleapis.com/auth/cloud-platform", api_version=api_version)
     size_variants = [("page_size", "int32"), ("page_size", "int64"), ("page_size", "uint32"), ("page_size", "sint32"), ("page_size", "fixed64"),
                      ("max_results", "int32"), ("max_results", "msg:" + WRAP + "UInt32Value"), ("max_results", "msg:" + WRAP + "Int32Value"),
                      ("page_size", "msg:" + WRAP + "Int32Value"), ("both", "int32")]
@@ -548,7 +551,7 @@ def library_api(r, transports):
     files = ([second] if two_files else []) + [main]
     request = apigen.request(files, parameter="transport=" + transports)
     info = {"package": pkg, "pypkg": pypkg, "service": svc_name, "module": snake(svc_name), "rpcs": rpcs, "transports": transports,
-            "two_files": two_files}
+            "two_files": two_files, "api_version": api_version}
     return request, info
 
 
@@ -928,7 +931,7 @@ def eval_drive(ctx, D, info, lib_i, req_b64, call, res, checks, pending):
     """Oracle + Coq terms for one driven call."""
     m, item, hist, kind, mode = call["m"], call["item"], call["hist"], call["kind"], call["mode"]
     names = call["attr_names"]
-    case = {"kind": "drive", "request_b64": req_b64, "info": {k: info[k] for k in ("package", "pypkg", "service", "module", "transports")},
+    case = {"kind": "drive", "request_b64": req_b64, "info": {k: info.get(k) for k in ("package", "pypkg", "service", "module", "transports", "api_version")},
             "rpc": m["name"], "call": {k: v for k, v in call.items() if k != "observed"}}
     brk = call["spec"].get("break_after")
     label = f"lib#{lib_i} {m['name']} {kind} {mode}{'' if brk is None else '@' + str(brk)} pages={[(len(p[0]), p[1]) for p in hist['pages']]} visited={hist['visited']}"
@@ -947,7 +950,7 @@ def eval_drive(ctx, D, info, lib_i, req_b64, call, res, checks, pending):
         visited = full
     ctx.case({"lib": lib_i, "rpc": m["name"], "kind": kind, "mode": mode, "hist": hist, "sent_token": call["sent_token"]},
              nontrivial=len(visited) > 1 or any(p[0] for p in visited),
-             feature=[f"drive-{kind}", f"mode-{mode}", f"pages={len(full)}", "break-holding-page>=2" if mode == "pages-break" and brk >= 1 else "no-late-break", f"item-{m['item_kind']}", f"size-{m['size'][0]}:{short(m['size'][1])}", f"paging-fields-{m.get('presence', 'plain')}",
+             feature=[f"drive-{kind}", f"mode-{mode}", f"pages={len(full)}", "service-with-api_version" if info.get("api_version") else "service-without-api_version", "break-holding-page>=2" if mode == "pages-break" and brk >= 1 else "no-late-break", f"item-{m['item_kind']}", f"size-{m['size'][0]}:{short(m['size'][1])}", f"paging-fields-{m.get('presence', 'plain')}",
                       "empty-intermediate-page" if any(not p[0] for p in visited[:-1]) else "no-empty-intermediate",
                       "unreachable-extra-pages" if len(hist["pages"]) > hist["visited"] else "no-extra-pages",
                       "initial-token" if call["sent_token"] else "no-initial-token", f"timeout-{call.get('timeout_mode', 'value')}",
@@ -993,6 +996,11 @@ def eval_drive(ctx, D, info, lib_i, req_b64, call, res, checks, pending):
             problems.append(f"call {k} changed other request fields: {c[1]} vs {calls[0][1]}")
         if k > 0 and (c[2] != calls[0][2]):
             problems.append(f"call {k} changed call options: {c[2]} vs {calls[0][2]}")
+    if info.get("api_version") and kind != "rest":
+        for k, c in enumerate(calls):
+            md = dict(map(tuple, json.loads(c[2])["metadata"])) if c[2] else {}
+            if md.get("x-goog-api-version") != info["api_version"]:
+                problems.append(f"call {k} does not carry x-goog-api-version: {info['api_version']} (the service declares google.api.api_version): {c[2]}")
     exp_items = [x for p in visited for x in p[0]]
     if mode == "items-break":
         exp_items = exp_items[:brk]
@@ -1087,7 +1095,7 @@ def retry_scenario(r, D, info, m, kinds):
 def eval_retry(ctx, D, info, i, b64, c, res, pending):
     m, item, variant, kind = c["m"], c["item"], c["retry"], c["kind"]
     case = {"kind": "drive-retry", "request_b64": b64, "rpc": m["name"], "pypkg": info["pypkg"], "spec": c["spec"], "variant": variant,
-            "info": {k: info[k] for k in ("package", "pypkg", "service", "module", "transports")}}
+            "info": {k: info.get(k) for k in ("package", "pypkg", "service", "module", "transports", "api_version")}}
     ctx.case({"lib": i, "rpc": m["name"], "kind": kind, "retry": variant}, feature=[f"retry-{variant}-on-follow-up-{kind}"])
     ncalls = len(res["http_calls"] if kind == "rest" else res["grpc_calls"])
     label = f"lib#{i} {m['name']} {kind} retry={variant} (2 pages, page 2 fails once with {'ABORTED/409' if variant == 'explicit' else 'UNAVAILABLE'})"
@@ -1157,7 +1165,7 @@ def sequence_scenarios(r, D, info, m, kinds):
 def eval_sequence(ctx, D, info, lib_i, req_b64, call, res, checks, pending):
     m, item, kind, seq = call["m"], call["item"], call["kind"], call["sequence"]
     h1, h2 = call["hist1"], call["hist2"]
-    case = {"kind": "drive-sequence", "request_b64": req_b64, "info": {k: info[k] for k in ("package", "pypkg", "service", "module", "transports")},
+    case = {"kind": "drive-sequence", "request_b64": req_b64, "info": {k: info.get(k) for k in ("package", "pypkg", "service", "module", "transports", "api_version")},
             "rpc": m["name"], "call": call}
     label = f"lib#{lib_i} {m['name']} {kind} sequence={seq} pages={[(len(p[0]), p[1]) for p in h1]}" + (f" then again {[(len(p[0]), p[1]) for p in h2]}" if h2 else "")
     ctx.case({"lib": lib_i, "rpc": m["name"], "kind": kind, "sequence": seq, "hist1": h1, "hist2": h2, "sent_token": call["sent_token"]},
@@ -1294,7 +1302,7 @@ def run_libraries(ctx, n, seed_tag="C07-lib", histories=2):
             if len(obs) == 2 and obs["grpc"] != obs["grpc_asyncio"]:
                 c = group[0]
                 pending.append((None, f"lib#{i} {key[0]}: sync and asyncio pagers disagree on the same history: {obs}",
-                                {"kind": "drive", "request_b64": b64, "rpc": key[0], "info": {k: info[k] for k in ("package", "pypkg", "service", "module", "transports")},
+                                {"kind": "drive", "request_b64": b64, "rpc": key[0], "info": {k: info.get(k) for k in ("package", "pypkg", "service", "module", "transports", "api_version")},
                                  "call": {k: v for k, v in c.items() if k != "observed"}}))
         gen.rm(root)
     failing, errors, nfiles = coq.eval_checks("c07lib" + re.sub(r"\W", "", seed_tag), IMPORTS, "", checks)
@@ -1317,7 +1325,7 @@ def witness_map_import(ctx):
     rq, rs = main.message("ListBooksRequest"), main.message("ListBooksResponse")
     add_fields(rq, req_shape, main)
     add_fields(rs, resp_shape, main)
-    main.service("Library", host="library.example.com").rpc("ListBooks", rq.fqn, rs.fqn, http=("get", "/v1/{parent=projects/*}/books"))
+    main.service("Library", host="library.example.com", api_version="v1_20240408").rpc("ListBooks", rq.fqn, rs.fqn, http=("get", "/v1/{parent=projects/*}/books"))
     req = apigen.request([second, main], parameter="transport=grpc")
     req = gen.with_params(req, ["transport=grpc"], gen.case_dir("c07mapimportcfg"), retry=retry_config({"package": pkg, "service": "Library"}))
     res, err = gen.run_generator(req)
@@ -1328,13 +1336,14 @@ def witness_map_import(ctx):
     D = dyn.Dyn(req)
     m = {"name": "ListBooks", "snake": "list_books", "req": req_shape, "resp": resp_shape, "req_fqn": rq.fqn, "resp_fqn": rs.fqn,
          "path": f"/{pkg}.Library/ListBooks", "item_kind": "map-message-other-file", "size": ("page_size", "int32"), "coll": "books"}
-    info = {"package": pkg, "pypkg": "google.example.library_v1", "service": "Library", "module": "library", "transports": "grpc", "rpcs": [m]}
+    info = {"package": pkg, "pypkg": "google.example.library_v1", "service": "Library", "module": "library", "transports": "grpc", "rpcs": [m],
+            "api_version": "v1_20240408"}
     calls = build_drive_calls(env.rng("C07-mapimport", 0), D, info, m, ["grpc"])[:1]
     out = gen.impl("pagedrive", {"root": root, "package": info["pypkg"], "calls": [c["spec"] for c in calls]})
     gen.rm(root)
     ctx.case({"witness": "map-import"}, feature=["witness-map-value-other-file"])
     c, o = calls[0], out[0]
-    case = {"kind": "drive", "request_b64": apigen.req_b64(req), "info": {k: info[k] for k in ("package", "pypkg", "service", "module", "transports")},
+    case = {"kind": "drive", "request_b64": apigen.req_b64(req), "info": {k: info.get(k) for k in ("package", "pypkg", "service", "module", "transports", "api_version")},
             "rpc": "ListBooks", "call": c}
     if not o.get("ok"):
         err = o.get("error", {})
